@@ -109,11 +109,13 @@ impl Server {
             let tcp_listener = Self::bind_health_check_listener(&hc_sock_addr)
                 .expect("failed to bind TCP listener for health check");
 
+            // Level-triggered: handle_health_check() accepts one connection per event, so the
+            // listener must keep signalling while further connections are pending
             poll.register(
                 &tcp_listener,
                 EVT_HEALTH_CHECK,
                 Ready::readable(),
-                PollOpt::edge(),
+                PollOpt::level(),
             )
             .unwrap();
 
